@@ -1,6 +1,7 @@
 CONSTANTS
   Comp = {"a", "b"}
   MaxDepth = 2
+  BatchMembers <- MCBatch
   MaxTape = 6
   Chunks = {"c1", "c2"}
   AttrVals = {1}
